@@ -772,11 +772,32 @@ func init() {
 			}
 			return bytesToValues(ip)
 		})
+		p.reg("net.ParseCIDR", func(ex *Exec, fr *Frame, args []Value) Value {
+			s, ok := args[0].(string)
+			if !ok {
+				ex.unsupported("net.ParseCIDR on a symbolic string")
+			}
+			ip, ipn, err := net.ParseCIDR(s)
+			if err != nil {
+				return Tuple{[]Value(nil), (*Value)(nil), ex.newErrorString(err.Error())}
+			}
+			var cell Value = Struct{bytesToValues(ipn.IP), bytesToValues(ipn.Mask)}
+			return Tuple{bytesToValues(ip), &cell, Iface{}}
+		})
 		p.reg("(net.IP).String", func(ex *Exec, fr *Frame, args []Value) Value {
 			vs, _ := args[0].([]Value)
 			b, ok := concreteBytes(vs)
 			if !ok {
-				ex.unsupported("net.IP.String on symbolic bytes")
+				// injective text model for symbolic addresses (the text is only compared/printed)
+				out := strBytes("ip:")
+				hex := func(n *Term) *Term {
+					return mkIte(mkCmp(OpULt, n, byteConst(10)), mkBin(OpAdd, n, byteConst('0')), mkBin(OpAdd, n, byteConst('a'-10)))
+				}
+				for _, v := range vs {
+					t := v.(*Term)
+					out = append(out, hex(mkBin(OpLShr, t, byteConst(4))), hex(mkBin(OpBAnd, t, byteConst(15))))
+				}
+				return mkStr(out)
 			}
 			return net.IP(b).String()
 		})
